@@ -308,6 +308,9 @@ def inline_guard(text, var, expr, lock_call, unlock_call):
         return text, 0
     head, tail = text[:m.start()], text[m.end():]
     n = 1
+    # later re-acquisitions of the same lock
+    tail, k = re.subn(r"let (?:mut )?%s = %s\.lock\(\)\.unwrap\(\);" % (re.escape(var), re.escape(expr)), lock_call, tail)
+    n += k
     tail, k = re.subn(r"\bdrop\(%s\);" % re.escape(var), unlock_call, tail)
     n += k
     tail, k = re.subn(r"(?<![\w.])%s\b" % re.escape(var), expr, tail)
